@@ -178,9 +178,11 @@ def gen_walks(cfg, num, depth, seed, timeout=900):
     for line in r.stdout.splitlines():
         if line.startswith('"{'):
             j = json.loads(json.loads(line))
-            if cur is None or j["lvl"] <= last:
+            if j["lvl"] == 2:
                 cur = []
                 walks.append(cur)
+            elif cur is None or j["lvl"] != last + 1:
+                continue        # a re-evaluated state, not a step
             last = j["lvl"]
             cur.append(j)
     return [w for w in walks if w]
